@@ -94,6 +94,7 @@ def c07_worker(job):
                     v_ = None
                 if v_ is not None and (t_, v_.id) not in have_:
                     recs = recs + [v_]
+                    case.meta.setdefault('start_codon_indel_tx', []).append(t_)
                     out['stats']['start_codon_indel_on_donor'] = out['stats'].get('start_codon_indel_on_donor', 0) + 1
             case.meta['records'] = recs
             gen_ref.write_gvfs(case, recs)
@@ -175,7 +176,8 @@ def c07_worker(job):
                 out['violations'].append((
                     f'with --skip-failed and failing units {F}, the output differs from the '
                     f'fault-free output minus the failing units: missing {sorted(missing)[:3]} '
-                    f'extra {sorted(extra)[:3]}', dict(desc, kind='isolation')))
+                    f'extra {sorted(extra)[:3]}', dict(desc, kind='isolation'),
+                    circ_dep_key(case, missing, extra, F)))
             tally = pipe.parse_tally(runB.log)
             exp_t = [sum(1 for tx in struct.txs if any(u in F and u.startswith(k)
                                                        for u in struct.units.get(tx, [])))
@@ -295,7 +297,24 @@ def c07_stage_faults(case, seed, rng, tier, out, desc0):
                 out['violations'].append((
                     f'with --skip-failed and a fault in {stage} (call {nth}) of a unit of {tx} ({failed}), the '
                     f'output differs from the fault-free output minus that unit: missing {sorted(missing)[:3]} '
-                    f'extra {sorted(extra)[:3]}', desc))
+                    f'extra {sorted(extra)[:3]}', desc, circ_dep_key(case, missing, extra, failed)))
+
+
+CIRC_DEP_KEY = 'c07-circ-unit-needs-main-unit-start-codon-conversion'
+
+
+def circ_dep_key(case, missing, extra, failed) -> Optional[str]:
+    """open finding: an indel on the last start-codon base is re-anchored IN PLACE by the main unit's
+    graph builder; the circRNA unit of the same transcript needs that conversion, so its peptides
+    go missing when the main unit failed before it.  Signature: such an indel was planted on T,
+    main:T is among the failed units, nothing extra, every missing pair belongs to a circRNA of T."""
+    planted = set(case.meta.get('start_codon_indel_tx', []))
+    if extra or not missing or not planted:
+        return None
+    hit = {t for t in planted if f'main:{t}' in failed}
+    if hit and all(any(lab.startswith((f'CIRC-{t}-', f'CI-{t}-')) for t in hit) for _s, lab in missing):
+        return CIRC_DEP_KEY
+    return None
 
 
 INVALID_ACCEPTER_KEY = 'c07-invalid-series-of-fusion-accepter-aborts'
